@@ -238,7 +238,7 @@ func TestC11_Handshake(t *testing.T) {
 		before := e.hOK.Load()
 		c, err := netfx.DialLoopback(e.srv.Addr, 5*time.Second)
 		if err != nil {
-			rt.Fatalf("infrastructure: %v", err)
+			ev.InfraSkip(rt, c11, "%v", err)
 		}
 		defer c.Close()
 		p := netfx.NewRawPeer(c)
@@ -374,12 +374,12 @@ func TestC11_PostHandshake(t *testing.T) {
 		before := e.hOK.Load()
 		peer, err := netfx.DialRaw(e.srv.Addr)
 		if err != nil {
-			rt.Fatalf("infrastructure: %v", err)
+			ev.InfraSkip(rt, c11, "%v", err)
 		}
 		defer peer.Close()
 		lz := rapid.Bool().Draw(rt, "lz4")
 		if _, err := peer.ClientHandshake(lz); err != nil {
-			rt.Fatalf("infrastructure: handshake: %v", err)
+			ev.InfraSkip(rt, c11, "handshake: %v", err)
 		}
 		kase := &c11postCase{Marker: mk}
 		n := rapid.IntRange(1, 25).Draw(rt, "nframes")
